@@ -28,6 +28,11 @@ impl AggregateSignature {
 
     // ASSUMED contract of AggregateSignature::verify (BLS fast_aggregate_verify over the marked keys);
     // the length guard is the first statement of verify_bytes.
+    // ASSUMED contract of AggregateSignature::is_signer (a bitmask lookup; bitvec is out of reach of both back ends)
+    #[verifier::external_body]
+    pub fn is_signer(&self, v: ValidatorIndex) -> (r: bool)
+        ensures r == self.signers().contains(v.0 as int)
+    { unimplemented!() }
     #[verifier::external_body]
     pub fn verify(&self, msg: &VotePayload, pks: &[PublicKey]) -> (r: bool)
         ensures
@@ -118,6 +123,24 @@ pub open spec fn spec_stakes(vals: Seq<ValidatorInfo>) -> Seq<int> {
 // the stake figure the certificate declares
 pub open spec fn signer_stake(vals: Seq<ValidatorInfo>, s: ISet<int>) -> int {
     sum_where(spec_stakes(vals), vals.len() as int, |v: int| s.contains(v))
+}
+
+// what EpochInfo::new establishes (it asserts id == index and sums the stakes): ASSUMED as the type invariant of EpochInfo
+pub open spec fn epoch_ok(ei: &EpochInfo) -> bool {
+    &&& forall|i: int| 0 <= i < ei.validators@.len() ==> (#[trigger] ei.validators@[i]).id.0 == i
+    &&& sum_where(spec_stakes(ei.validators@), ei.validators@.len() as int, all_true()) == ei.total_stake.0
+}
+// a partial sum over a prefix and a sub-predicate never exceeds the total
+pub proof fn lemma_partial_sum_le_total(stakes: Seq<int>, i: int, p: spec_fn(int) -> bool)
+    requires forall|k: int| 0 <= k < stakes.len() ==> stakes[k] >= 0, 0 <= i <= stakes.len(),
+    ensures sum_where(stakes, i, p) <= sum_where(stakes, stakes.len() as int, all_true())
+    decreases stakes.len() - i
+{
+    lemma_sum_mono(stakes, i, p, all_true());
+    if i < stakes.len() {
+        lemma_partial_sum_le_total(stakes, i + 1, all_true());
+        lemma_sum_nonneg(stakes, i, all_true());
+    }
 }
 
 impl Cert {
@@ -277,11 +300,35 @@ ensures
 }
 
 impl NotarCert {
-    // ASSUMED contract of the iterator-chain body (bounded Kani stand-in: kani_notar_cert_threshold)
-    #[verifier::external_body]
-    pub fn check_threshold(&self, epoch_info: &EpochInfo) -> (r: bool)
-        ensures r == Cert::Notar(*self).spec_threshold_ok(epoch_info)
-    { unimplemented!() }
+/*@ extract src/consensus/cert.rs :: impl NotarCert/fn check_threshold
+props C09 C03
+ret r
+rewrite[R4] `let stake: Stake = epoch_info .validators() .iter() .filter(|v|` => `let mut stake: Stake = Stake::new(0); let verif_vals = epoch_info.validators(); let mut verif_i: usize = 0; while verif_i < verif_vals.len() { let v = &verif_vals[verif_i]; verif_i += 1; let verif_keep: bool = (`
+rewrite[R4] `) .map(|v| v.stake) .sum();` => `); if verif_keep { stake += v.stake; } }`
+requires
+        epoch_ok(epoch_info),
+ensures
+        // [C09.threshold_recomputed_from_signers C03.threshold_recomputed_from_signers]
+        r == Cert::Notar(*self).spec_threshold_ok(epoch_info),
+before `let mut stake: Stake = Stake::new(0);`
+        let ghost stakes = spec_stakes(epoch_info.validators@);
+        let ghost pred = |v: int| self.agg_sig.signers().contains(v);
+        proof { assert forall|k: int| 0 <= k < stakes.len() implies stakes[k] >= 0 by {} }
+loop 0
+        invariant
+            epoch_ok(epoch_info) && verif_vals@ == epoch_info.validators@ && stakes == spec_stakes(epoch_info.validators@),
+            pred == (|v: int| self.agg_sig.signers().contains(v)),
+            forall|k: int| 0 <= k < stakes.len() ==> stakes[k] >= 0,
+            verif_i <= verif_vals@.len(),
+            stake.0 == sum_where(stakes, verif_i as int, pred),
+        decreases verif_vals@.len() - verif_i,
+before `if verif_keep { stake += v.stake; }`
+        proof {
+            lemma_partial_sum_le_total(stakes, verif_i as int, pred);
+            assert(verif_keep == pred(verif_i - 1));
+            assert(stakes[verif_i - 1] == v.stake.0);
+        }
+@*/
 /*@ extract src/consensus/cert.rs :: impl NotarCert/fn check_sig
 props C09
 ret r
@@ -292,10 +339,35 @@ ensures
 @*/
 }
 impl FastFinalCert {
-    #[verifier::external_body]
-    pub fn check_threshold(&self, epoch_info: &EpochInfo) -> (r: bool)
-        ensures r == Cert::FastFinal(*self).spec_threshold_ok(epoch_info)
-    { unimplemented!() }
+/*@ extract src/consensus/cert.rs :: impl FastFinalCert/fn check_threshold
+props C09 C03
+ret r
+rewrite[R4] `let stake: Stake = epoch_info .validators() .iter() .filter(|v|` => `let mut stake: Stake = Stake::new(0); let verif_vals = epoch_info.validators(); let mut verif_i: usize = 0; while verif_i < verif_vals.len() { let v = &verif_vals[verif_i]; verif_i += 1; let verif_keep: bool = (`
+rewrite[R4] `) .map(|v| v.stake) .sum();` => `); if verif_keep { stake += v.stake; } }`
+requires
+        epoch_ok(epoch_info),
+ensures
+        // [C09.threshold_recomputed_from_signers C03.threshold_recomputed_from_signers]
+        r == Cert::FastFinal(*self).spec_threshold_ok(epoch_info),
+before `let mut stake: Stake = Stake::new(0);`
+        let ghost stakes = spec_stakes(epoch_info.validators@);
+        let ghost pred = |v: int| self.agg_sig.signers().contains(v);
+        proof { assert forall|k: int| 0 <= k < stakes.len() implies stakes[k] >= 0 by {} }
+loop 0
+        invariant
+            epoch_ok(epoch_info) && verif_vals@ == epoch_info.validators@ && stakes == spec_stakes(epoch_info.validators@),
+            pred == (|v: int| self.agg_sig.signers().contains(v)),
+            forall|k: int| 0 <= k < stakes.len() ==> stakes[k] >= 0,
+            verif_i <= verif_vals@.len(),
+            stake.0 == sum_where(stakes, verif_i as int, pred),
+        decreases verif_vals@.len() - verif_i,
+before `if verif_keep { stake += v.stake; }`
+        proof {
+            lemma_partial_sum_le_total(stakes, verif_i as int, pred);
+            assert(verif_keep == pred(verif_i - 1));
+            assert(stakes[verif_i - 1] == v.stake.0);
+        }
+@*/
 /*@ extract src/consensus/cert.rs :: impl FastFinalCert/fn check_sig
 props C09
 ret r
@@ -306,10 +378,35 @@ ensures
 @*/
 }
 impl FinalCert {
-    #[verifier::external_body]
-    pub fn check_threshold(&self, epoch_info: &EpochInfo) -> (r: bool)
-        ensures r == Cert::Final(*self).spec_threshold_ok(epoch_info)
-    { unimplemented!() }
+/*@ extract src/consensus/cert.rs :: impl FinalCert/fn check_threshold
+props C09 C03
+ret r
+rewrite[R4] `let stake: Stake = epoch_info .validators() .iter() .filter(|v|` => `let mut stake: Stake = Stake::new(0); let verif_vals = epoch_info.validators(); let mut verif_i: usize = 0; while verif_i < verif_vals.len() { let v = &verif_vals[verif_i]; verif_i += 1; let verif_keep: bool = (`
+rewrite[R4] `) .map(|v| v.stake) .sum();` => `); if verif_keep { stake += v.stake; } }`
+requires
+        epoch_ok(epoch_info),
+ensures
+        // [C09.threshold_recomputed_from_signers C03.threshold_recomputed_from_signers]
+        r == Cert::Final(*self).spec_threshold_ok(epoch_info),
+before `let mut stake: Stake = Stake::new(0);`
+        let ghost stakes = spec_stakes(epoch_info.validators@);
+        let ghost pred = |v: int| self.agg_sig.signers().contains(v);
+        proof { assert forall|k: int| 0 <= k < stakes.len() implies stakes[k] >= 0 by {} }
+loop 0
+        invariant
+            epoch_ok(epoch_info) && verif_vals@ == epoch_info.validators@ && stakes == spec_stakes(epoch_info.validators@),
+            pred == (|v: int| self.agg_sig.signers().contains(v)),
+            forall|k: int| 0 <= k < stakes.len() ==> stakes[k] >= 0,
+            verif_i <= verif_vals@.len(),
+            stake.0 == sum_where(stakes, verif_i as int, pred),
+        decreases verif_vals@.len() - verif_i,
+before `if verif_keep { stake += v.stake; }`
+        proof {
+            lemma_partial_sum_le_total(stakes, verif_i as int, pred);
+            assert(verif_keep == pred(verif_i - 1));
+            assert(stakes[verif_i - 1] == v.stake.0);
+        }
+@*/
 /*@ extract src/consensus/cert.rs :: impl FinalCert/fn check_sig
 props C09
 ret r
@@ -320,10 +417,39 @@ ensures
 @*/
 }
 impl NotarFallbackCert {
-    #[verifier::external_body]
-    pub fn check_threshold(&self, epoch_info: &EpochInfo) -> (r: bool)
-        ensures r == Cert::NotarFallback(*self).spec_threshold_ok(epoch_info)
-    { unimplemented!() }
+/*@ extract src/consensus/cert.rs :: impl NotarFallbackCert/fn check_threshold
+props C09 C03
+ret r
+rewrite[R4] `let stake: Stake = epoch_info .validators() .iter() .filter(|v|` => `let mut stake: Stake = Stake::new(0); let verif_vals = epoch_info.validators(); let mut verif_i: usize = 0; while verif_i < verif_vals.len() { let v = &verif_vals[verif_i]; verif_i += 1; let verif_keep: bool = (`
+rewrite[R4] `) .map(|v| v.stake) .sum();` => `); if verif_keep { stake += v.stake; } }`
+requires
+        epoch_ok(epoch_info),
+ensures
+        // [C09.threshold_recomputed_from_signers C03.threshold_recomputed_from_signers]
+        r == Cert::NotarFallback(*self).spec_threshold_ok(epoch_info),
+before `let mut stake: Stake = Stake::new(0);`
+        let ghost stakes = spec_stakes(epoch_info.validators@);
+        let ghost pred = |v: int| opt_signers(self.agg_sig_notar).union(opt_signers(self.agg_sig_notar_fallback)).contains(v);
+        proof { assert forall|k: int| 0 <= k < stakes.len() implies stakes[k] >= 0 by {} }
+loop 0
+        invariant
+            epoch_ok(epoch_info) && verif_vals@ == epoch_info.validators@ && stakes == spec_stakes(epoch_info.validators@),
+            pred == (|v: int| opt_signers(self.agg_sig_notar).union(opt_signers(self.agg_sig_notar_fallback)).contains(v)),
+            forall|k: int| 0 <= k < stakes.len() ==> stakes[k] >= 0,
+            verif_i <= verif_vals@.len(),
+            stake.0 == sum_where(stakes, verif_i as int, pred),
+        decreases verif_vals@.len() - verif_i,
+before `if verif_keep { stake += v.stake; }`
+        proof {
+            lemma_partial_sum_le_total(stakes, verif_i as int, pred);
+            assert(verif_keep == pred(verif_i - 1));
+            assert(stakes[verif_i - 1] == v.stake.0);
+        }
+closure *
+        params s: &AggregateSignature
+        ret b: bool
+        ensures b == s.signers().contains(v.id.0 as int)
+@*/
 /*@ extract src/consensus/cert.rs :: impl NotarFallbackCert/fn check_sig
 props C09
 ret r
@@ -342,10 +468,39 @@ closure 1
 @*/
 }
 impl SkipCert {
-    #[verifier::external_body]
-    pub fn check_threshold(&self, epoch_info: &EpochInfo) -> (r: bool)
-        ensures r == Cert::Skip(*self).spec_threshold_ok(epoch_info)
-    { unimplemented!() }
+/*@ extract src/consensus/cert.rs :: impl SkipCert/fn check_threshold
+props C09 C03
+ret r
+rewrite[R4] `let stake: Stake = epoch_info .validators() .iter() .filter(|v|` => `let mut stake: Stake = Stake::new(0); let verif_vals = epoch_info.validators(); let mut verif_i: usize = 0; while verif_i < verif_vals.len() { let v = &verif_vals[verif_i]; verif_i += 1; let verif_keep: bool = (`
+rewrite[R4] `) .map(|v| v.stake) .sum();` => `); if verif_keep { stake += v.stake; } }`
+requires
+        epoch_ok(epoch_info),
+ensures
+        // [C09.threshold_recomputed_from_signers C03.threshold_recomputed_from_signers]
+        r == Cert::Skip(*self).spec_threshold_ok(epoch_info),
+before `let mut stake: Stake = Stake::new(0);`
+        let ghost stakes = spec_stakes(epoch_info.validators@);
+        let ghost pred = |v: int| opt_signers(self.agg_sig_skip).union(opt_signers(self.agg_sig_skip_fallback)).contains(v);
+        proof { assert forall|k: int| 0 <= k < stakes.len() implies stakes[k] >= 0 by {} }
+loop 0
+        invariant
+            epoch_ok(epoch_info) && verif_vals@ == epoch_info.validators@ && stakes == spec_stakes(epoch_info.validators@),
+            pred == (|v: int| opt_signers(self.agg_sig_skip).union(opt_signers(self.agg_sig_skip_fallback)).contains(v)),
+            forall|k: int| 0 <= k < stakes.len() ==> stakes[k] >= 0,
+            verif_i <= verif_vals@.len(),
+            stake.0 == sum_where(stakes, verif_i as int, pred),
+        decreases verif_vals@.len() - verif_i,
+before `if verif_keep { stake += v.stake; }`
+        proof {
+            lemma_partial_sum_le_total(stakes, verif_i as int, pred);
+            assert(verif_keep == pred(verif_i - 1));
+            assert(stakes[verif_i - 1] == v.stake.0);
+        }
+closure *
+        params s: &AggregateSignature
+        ret b: bool
+        ensures b == s.signers().contains(v.id.0 as int)
+@*/
 /*@ extract src/consensus/cert.rs :: impl SkipCert/fn check_sig
 props C09
 ret r
@@ -368,6 +523,8 @@ impl Cert {
 /*@ extract src/consensus/cert.rs :: impl Cert/fn check_threshold
 props C09
 ret r
+requires
+        epoch_ok(epoch_info),
 ensures
         // [C09.threshold_recomputed_from_signers]
         r == self.spec_threshold_ok(epoch_info),
@@ -385,6 +542,9 @@ impl ValidatedCert {
 /*@ extract src/consensus/validated_cert.rs :: impl ValidatedCert/fn try_new
 props C09 C03
 ret r
+requires
+        // type invariant of EpochInfo (EpochInfo::new asserts id == index and sums the stakes)
+        epoch_ok(epoch_info),
 ensures
         // [C09.cert_admitted_only_if_backed_and_signed C03.cert_admitted_only_if_backed_and_signed]
         r matches Ok(v) ==> v.cert == cert && cert.spec_threshold_ok(epoch_info) && cert.spec_sig_ok(epoch_info.validators@),
@@ -398,6 +558,8 @@ ensures
 as canary_try_new
 expect-fail
 ret r
+requires
+        epoch_ok(epoch_info),
 ensures
         r is Ok,
 @*/
